@@ -392,6 +392,15 @@ class CallMixin(object):
                         return [(st, c, mk_none(), None)]
                     st2, nd = self.dict_update(st, c, src)
                     return [(st2, nd, mk_none(), None)]
+                if src.ty == VAL and ty.k == STR and ty.v == VAL:
+                    res = []
+                    cases, rest = self.val_split(st, src, ['obj'])
+                    for kind, s2, a in cases:
+                        s3, nd = self.dict_update(s2, c, self.vobj(s2, Val.vo(a.z)))
+                        res.append((s3, nd, mk_none(), None))
+                    if rest is not None:
+                        res.append((rest, c, None, 'TypeError'))
+                    return res
                 self.oos('dict.update with %r' % (src.ty,), node)
             if meth == 'clear':
                 return [(st, self.empty_dict(ty), mk_none(), None)]
@@ -766,6 +775,9 @@ class CallMixin(object):
                 out += self.vlist_method(s2, c, name, args, kw, node)
             else:
                 # method of an unknown python object
+                if name in self.spec.method_handlers:
+                    out += self.spec.method_handlers[name](self, s2, c, args, node)
+                    continue
                 cn = '$method.' + name
                 c2 = self.spec.contracts.get(cn) or self.spec.contracts.get('$method')
                 if c2 is None and (name in self.STR_METHODS or name in self.OBJ_METHODS or
